@@ -862,6 +862,18 @@ func (h *HttpServer) handleExchangeCall(ctx context.Context, w http.ResponseWrit
 		}
 	}
 
+	// A batch the IPC writer refused (its schema does not fit the stream it
+	// is written to) leaves the body without its data batch and without a
+	// continuation token, which a client reads as a clean end of the
+	// exchange. The hook is told the turn failed; tell the client too.
+	if writeErr != nil {
+		h.writeExchangeCapError(w, schema, info.Name, &RpcError{
+			Type:    "RuntimeError",
+			Message: fmt.Sprintf("writing exchange output: %v", writeErr),
+		})
+		return writeErr
+	}
+
 	// Hard cap enforcement for exchange, both channels: if the IPC body
 	// exceeded max_response_bytes, or the upload exceeded
 	// max_externalized_response_bytes, replace the response with a fresh
